@@ -89,6 +89,9 @@ def check(ctx):
             "the bracket is [c1, c2] * 0.27 pr/Tr with constants 0 < c1 < 1 < c2 (it contains the ideal-gas density, Z = 1)",
             signature="bracket", lower=nf.show(lo), upper=nf.show(hi),
         )
+    from .c19 import check_builder
+
+    check_builder(ctx, "C06-f")  # the tabulated Z column is the DAK root for the *supplied* composition
     check_hall_yarbrough(ctx)
     ctx.floor("C06", len(ctx.obligs), 3, "DAK obligations")
 
